@@ -295,6 +295,16 @@ def run_unit(unit, rng, ctx):
                 iso2 = all(np.allclose((m2.T @ np.asarray(op.rotation_matrix) @ np.linalg.inv(m2.T)) @ (m2.T @ np.asarray(op.rotation_matrix) @ np.linalg.inv(m2.T)).T, np.eye(3), atol=1e-8) for op in ops2)
             except Exception:  # noqa: BLE001  (spglib could not analyse the synthetic structure)
                 an2, iso2 = None, False
+            if an2 is not None and len(st2) <= 64:
+                # whatever operations from_structure attaches, they are symmetries of the structure it was given:
+                # every operation maps the set of atoms onto itself (modulo lattice vectors)
+                fr2 = np.mod(np.asarray(st2.frac_coords), 1)
+                bad_ops = 0
+                for op in ops2:
+                    img = np.mod(np.asarray(op.operate_multi(fr2)), 1)
+                    dd_ = geom.min_image(np.asarray(st2.lattice.matrix), img, fr2)
+                    bad_ops += int(np.any(dd_.min(axis=1) > 0.05))  # spglib matches atoms within its symprec (0.01 A)
+                ctx.check(bad_ops == 0, f'{sg.symbol} (#{n}) second analyzer: {bad_ops} of the {len(ops2)} operations attached by from_structure do not map the (rigidly shifted) structure onto itself', {**wit, 'shift': tvec})
             if an2 is not None and iso2 and len(ops2) * len(an2.sites) <= 800:
                 site2 = an2.sites[0]
                 inv2 = np.linalg.inv(m2)
